@@ -49,7 +49,9 @@ AWKWARD_COLS = ['select', 'from', 'order', 'group by', 'a b', 'é', '中', 'Mixe
                 'a:b', '?', '[x]', '$1', 'semi;',
                 # names of things the implementation keeps per table
                 'columns', 'fields', 'cache', 'rows', 'types', 'name',
-                'count', 'nulls', 'table']
+                'count', 'nulls', 'table',
+                # distinct for SQLite, equal under Python's lower()
+                'É', 'Ünit', 'ünit']
 
 
 def text_values():
@@ -117,7 +119,7 @@ def table(draw):
     names = draw(st.lists(st.one_of(st.sampled_from(AWKWARD_COLS),
                                     st.sampled_from(['a', 'b', 'c', 'd'])),
                           min_size=ncols, max_size=ncols,
-                          unique_by=lambda s: s.lower()))
+                          unique_by=S.sql_fold))
     cols = []
     for nm in names:
         kind = draw(st.sampled_from(['int64', 'float64', 'boolean', 'ostr',
